@@ -21,15 +21,15 @@ import (
 // reference-model twin holding the full log must answer the probes alike).
 
 type isStep struct {
-	Op     string `json:"op"` // is | ae | rv
-	Snap   int    `json:"snap,omitempty"`  // 0 = A, 1 = B
-	Chunk  int    `json:"chunk,omitempty"` // chunk number within the drawn chunking
-	DOff   int64  `json:"doff,omitempty"`  // offset error
-	DTerm  int    `json:"dterm,omitempty"` // request term relative to the node's current term
-	From   string `json:"from,omitempty"`
-	AE     *aeReq `json:"ae,omitempty"`
-	LastI  uint64 `json:"last_i,omitempty"`
-	LastT  uint64 `json:"last_t,omitempty"`
+	Op    string `json:"op"`              // is | ae | rv
+	Snap  int    `json:"snap,omitempty"`  // 0 = A, 1 = B
+	Chunk int    `json:"chunk,omitempty"` // chunk number within the drawn chunking
+	DOff  int64  `json:"doff,omitempty"`  // offset error
+	DTerm int    `json:"dterm,omitempty"` // request term relative to the node's current term
+	From  string `json:"from,omitempty"`
+	AE    *aeReq `json:"ae,omitempty"`
+	LastI uint64 `json:"last_i,omitempty"`
+	LastT uint64 `json:"last_t,omitempty"`
 }
 
 type c11Script struct {
